@@ -114,6 +114,7 @@ func c03Crash(r *rng, id string) {
 		c.key = []byte("0123456789abcdef")
 		c.label = "sim"
 	}
+	c.writerOnSend = r.chance(1, 3)
 	cl, err := newSimCluster(r, nn, c)
 	if err != nil {
 		emit("C03 sim id=%s err=create", id)
@@ -133,6 +134,11 @@ func c03Crash(r *rng, id string) {
 	hangs := map[int]bool{}
 	for i := range crashAt {
 		hangs[i] = c.tcpPings && r.chance(1, 3)
+	}
+	// some crashes take the member's route with them: packets to it are refused by the sender's own stack
+	unreach := map[int]bool{}
+	for i := range crashAt {
+		unreach[i] = !hangs[i] && r.chance(1, 3)
 	}
 	go cl.joinAll(400 * time.Millisecond)
 	takeover := r.chance(1, 3)
@@ -164,6 +170,9 @@ func c03Crash(r *rng, id string) {
 					cl.nodes[i].hang() // stops responding but keeps its listening socket (a frozen process)
 				} else {
 					cl.nodes[i].crash()
+					if unreach[i] && !takeover {
+						cl.nodes[i].tr.unreachable.Store(true)
+					}
 				}
 				crashTime[cl.nodes[i].name] = now
 				if takeover && now > 6*time.Second && !hangs[i] {
